@@ -262,6 +262,13 @@ def observe(x, ids, depth=0):
     return ('s', 'PY:' + type(x).__name__)
 
 
+def observe_canon(xs):
+    """canonical observation of a tuple of engine terms: variables are numbered by first
+    occurrence over the whole tuple (one shared numbering, so aliasing between the terms shows)"""
+    ids = {}
+    return canon([observe(x, ids) for x in xs])
+
+
 def raw_state(v):
     """binding state of one engine variable as seen through the public get_value:
     None if unbound (get_value returns the variable itself)"""
